@@ -52,6 +52,9 @@ def main():
             rc0, o0 = sh(f"/venv/bin/python {demo}", cwd=wt, env=env, timeout=900)
             res["demo_unchanged"] = {"exit": rc0, "tail": o0.strip()[-200:]}
         rc, o = sh(f"git -C {wt} apply {patch}")
+        if rc != 0:
+            rc, o = sh(f"git -C {wt} apply --3way {patch}")  # the base commit of the patch is older than HEAD
+            res["applied_with_3way"] = rc == 0
         res["applies"] = rc == 0
         if rc != 0:
             res["apply_error"] = o[-300:]
@@ -68,6 +71,9 @@ def main():
         sh(f"git -C /repo worktree remove --force {wt}")
     if res.get("applies") and a.checks:
         rc, o = sh(f"git -C /repo apply {patch}")
+        if rc != 0:
+            rc, o = sh(f"git -C /repo apply --3way {patch}")
+            sh("git -C /repo reset -q")  # --3way stages the result; keep it in the working tree only
         try:
             for c in a.checks.split(","):
                 for seed in a.seeds.split(","):
